@@ -390,13 +390,17 @@ def post_hints(g, op, h):
     return op
 
 
-def failed_hints(op, h):
-    """the edit raised: encode it with the hints known beforehand"""
+def failed_hints(g, op, h):
+    """the edit raised: the geometry has been modified in place up to the exception, so the connections added before it
+    (the order in which the missing connections were added) can still be read off"""
     k = op[0]
-    if k == 'cf': return ('cf', [], [])
-    if k == 'rd': return ('rd', list(op[1]), [], [])
-    if k == 'rf': return ('rf', list(op[1]), h.get('hk', []), h.get('hb', []), h.get('hc', []), [])
-    if k == 'de': return ('de', list(op[1]), h.get('hs', []), [])
+    old = set(id(c) for c in h.get('klist', []))
+    try: new_keys = [(c.column[0].name, c.column[1].name) for c in g.connectionlist if id(c) not in old]
+    except Exception: new_keys = []
+    if k == 'cf': return ('cf', new_keys, [])
+    if k == 'rd': return ('rd', list(op[1]), new_keys, [])
+    if k == 'rf': return ('rf', list(op[1]), h.get('hk', []), h.get('hb', []), h.get('hc', []), new_keys)
+    if k == 'de': return ('de', list(op[1]), h.get('hs', []), new_keys)
     if k == 'ro': return ('mv', [], [])
     return op
 
@@ -411,7 +415,7 @@ def apply_op_h(g, op):
         except Exception as e: return g, op, exn_name(e)
     h = pre_hints(g, op)
     try: g = apply_op(g, op)
-    except Exception as e: return g, failed_hints(op, h), exn_name(e)
+    except Exception as e: return g, failed_hints(g, op, h), exn_name(e)
     return g, post_hints(g, op, h), None
 
 
